@@ -59,6 +59,12 @@ def p_closure_factory(k):
         return n
     return inner
 
+def p_closure_defaults_factory(k):
+    def inner(x, y=2, *rest, bias=7, tag="t"):
+        z = x + k + y + bias
+        return z, tag, rest
+    return inner
+
 def p_defaults(a, b=[], *rest, c=3, **kw):
     b.append(a)
     return a, list(b), rest, c, sorted(kw)
@@ -199,6 +205,8 @@ def _cases(mod):
         ("p_aug", mod.p_aug, lambda: ([0], 3), None),
         ("p_attr_item", mod.p_attr_item, lambda: (Obj(), {}), None),
         ("p_closure", mod.p_closure_factory(2), lambda: (5,), None),
+        ("p_closure_defaults", mod.p_closure_defaults_factory(3), lambda: (1,), None),
+        ("p_closure_defaults_kw", mod.p_closure_defaults_factory(3), lambda: (1, 9), {"bias": 0}),
         ("p_defaults", mod.p_defaults, lambda: (1,), None),
         ("p_defaults2", mod.p_defaults, lambda: (1, [9], 7, 8), {"c": 4, "zz": 1}),
         ("p_nested", mod.p_nested, lambda: (4,), None),
@@ -274,11 +282,23 @@ def native_checks(tier, seed):
             plain = _run(m0, fn, mkargs, kind)
             plain2 = _run(m0, fn, mkargs, kind)  # second call on the same state (what 'after deactivation' is compared with)
             names = [v for v in fn.__code__.co_varnames][:4 if tier == "quick" else 12]
-            configs = ["$v"] + names + (["#value", "#enter"] if tier != "quick" else ["#value"])
+            configs = ["$v"] + names + (["#value", "#enter"] if tier != "quick" else ["#value"]) + ["@tooled"]
             for cfg in configs:
                 m1 = fresh()
                 _, fn1, mkargs1, kind1 = _cases(m1)[ci]
                 n += 1
+                if cfg == "@tooled":
+                    # the tooling decorator returns a REBUILT function object (name, defaults, closure re-created by transform())
+                    from ptera import tooled
+
+                    try:
+                        tf = tooled(fn1)
+                        probed = _run(m1, tf, mkargs1, kind1)
+                    except BaseException as e:  # noqa
+                        probed = (("tooling:" + type(e).__name__, str(e)[:80]), [], "", m1.G)
+                    if name != "p_rec" and probed != plain:
+                        bad.append((name, cfg, plain, probed))
+                    continue
                 try:
                     with probing(f"target > {cfg}", env={"target": fn1}) as prb:
                         prb.subscribe(lambda data: None)
@@ -302,6 +322,6 @@ def native_checks(tier, seed):
                   "print(r['summary'])\nsys.exit(1 if r['violations'] else 0)\n")
         viol.append({"name": "C01/native/plain-vs-probed", "model": {"program": nm, "probe": cfg, "plain": repr(a)[:600], "probed": repr(b)[:600], "count": len(bad)},
                      "goal": f"{len(bad)} (program, probe) pairs behave differently, e.g. {nm} under 'target > {cfg}': plain={a!r} probed={b!r}"[:900], "path": "", "script": script})
-    return {"bounded": [{"unit": "native:plain-vs-probed", "bound": "24 corpus programs x {all variables, each of the first variables, #value} non-overriding probes, fixed inputs",
+    return {"bounded": [{"unit": "native:plain-vs-probed", "bound": "26 corpus programs x {all variables, each of the first variables, #value} non-overriding probes, fixed inputs",
                          "obligations": n, "discharged": n - len(bad)}],
             "known": [], "violations": viol, "summary": {"runs": n, "differences": len(bad), "first": None if not bad else [bad[0][0], bad[0][1], repr(bad[0][2])[:300], repr(bad[0][3])[:300]]}}
